@@ -80,6 +80,54 @@ fn same_image(a: &tiny_skia::Pixmap, b: &tiny_skia::Pixmap, tol: u8) -> (bool, S
     (false, why)
 }
 
+/// feature probes (content placed over a sand-coloured backdrop)
+const PROBES: [&str; 44] = [
+    r###"<g style="isolation:isolate"><rect x="20" y="20" width="60" height="50" fill="#08f" style="mix-blend-mode:multiply"/></g>"###,
+    r###"<g style="mix-blend-mode:difference"><rect x="20" y="20" width="60" height="50" fill="#08f"/></g>"###,
+    r###"<g style="mix-blend-mode:screen;isolation:isolate" opacity="0.8"><circle cx="60" cy="50" r="30" fill="#f40"/></g>"###,
+    r###"<g opacity="0.35"><rect x="10" y="10" width="50" height="50" fill="black"/><rect x="35" y="35" width="50" height="50" fill="black"/></g>"###,
+    r###"<path d="M 20 20 h 80 v 60 h -80 z M 40 35 h 40 v 30 h -40 z M 50 42 h 20 v 16 h -20 z" fill="purple" fill-rule="evenodd"/>"###,
+    r###"<path d="M 20 20 h 80 v 60 h -80 z M 40 35 v 30 h 40 v -30 z" fill="purple" fill-rule="nonzero"/>"###,
+    r###"<path d="M 20 80 L 60 15 L 100 80" fill="none" stroke="black" stroke-width="12" stroke-linejoin="miter" stroke-miterlimit="1.2"/>"###,
+    r###"<path d="M 20 80 L 60 15 L 100 80" fill="none" stroke="black" stroke-width="12" stroke-linejoin="round" stroke-linecap="round"/>"###,
+    r###"<path d="M 20 80 L 60 15 L 100 80" fill="none" stroke="black" stroke-width="12" stroke-linejoin="bevel" stroke-linecap="square"/>"###,
+    r###"<path d="M 10 50 H 110" stroke="black" stroke-width="8" stroke-dasharray="14 6 3 6" stroke-dashoffset="9"/>"###,
+    r###"<rect x="20" y="20" width="70" height="50" fill="green" fill-opacity="0.3" stroke="navy" stroke-opacity="0.5" stroke-width="10"/>"###,
+    r###"<rect x="20" y="20" width="70" height="50" fill="green" stroke="navy" stroke-width="14" paint-order="stroke"/>"###,
+    r###"<g visibility="hidden"><rect x="20" y="20" width="70" height="50" fill="red"/><rect x="40" y="40" width="30" height="20" fill="blue" visibility="visible"/></g>"###,
+    r###"<path d="M 10 10 L 110 37 L 15 64 Z" fill="black" shape-rendering="crispEdges"/>"###,
+    r###"<rect x="10" y="10" width="100" height="80" fill="url(#lg)"/>"###,
+    r###"<defs><radialGradient id="rg" cx="0.3" cy="0.3" r="0.5" fx="0.2" fy="0.25" spreadMethod="repeat"><stop offset="0" stop-color="white"/><stop offset="1" stop-color="black"/></radialGradient></defs><circle cx="60" cy="50" r="40" fill="url(#rg)" stroke="url(#lg)" stroke-width="8"/>"###,
+    r###"<defs><pattern id="pt" x="3" y="4" width="18" height="14" patternUnits="userSpaceOnUse" patternTransform="rotate(15) scale(1.2)" viewBox="0 0 9 7" preserveAspectRatio="xMaxYMid slice"><rect width="5" height="4" fill="crimson"/><circle cx="7" cy="5" r="2"/></pattern></defs><rect x="10" y="10" width="100" height="80" fill="url(#pt)"/>"###,
+    r###"<defs><pattern id="po" width="0.25" height="0.3" patternContentUnits="objectBoundingBox"><rect width="0.12" height="0.15" fill="navy"/></pattern></defs><rect x="10" y="10" width="100" height="80" fill="url(#po)"/><circle cx="30" cy="70" r="25" fill="url(#po)"/>"###,
+    r###"<defs><clipPath id="cp"><circle cx="50" cy="50" r="35"/><path d="M 60 10 h 50 v 50 h -50 z M 75 25 v 20 h 20 v -20 z" clip-rule="evenodd"/></clipPath></defs><rect width="120" height="100" fill="teal" clip-path="url(#cp)"/>"###,
+    r###"<defs><clipPath id="c1" clip-path="url(#c2)"><rect x="10" y="10" width="80" height="70"/></clipPath><clipPath id="c2" clipPathUnits="objectBoundingBox" transform="translate(0.1 0)"><circle cx="0.5" cy="0.5" r="0.45"/></clipPath></defs><rect width="120" height="100" fill="olive" clip-path="url(#c1)"/>"###,
+    r###"<defs><mask id="ml"><rect width="120" height="100" fill="url(#lg)"/></mask></defs><rect width="120" height="100" fill="black" mask="url(#ml)"/>"###,
+    r###"<defs><mask id="ma" mask-type="alpha" maskUnits="userSpaceOnUse" x="20" y="10" width="70" height="70"><rect width="120" height="100" fill="url(#lg)"/></mask><mask id="mb" mask="url(#ma)"><circle cx="60" cy="50" r="40" fill="white"/></mask></defs><rect width="120" height="100" fill="black" mask="url(#mb)"/>"###,
+    r###"<defs><filter id="f" x="-0.2" y="-0.2" width="1.4" height="1.4"><feGaussianBlur stdDeviation="3 0.5"/></filter></defs><rect x="30" y="30" width="50" height="40" fill="black" filter="url(#f)"/>"###,
+    r###"<defs><filter id="f"><feOffset dx="7" dy="-4" result="o"/><feFlood flood-color="gold" flood-opacity="0.6" x="20" y="20" width="40" height="30" result="fl"/><feBlend in="o" in2="fl" mode="multiply"/></filter></defs><rect x="30" y="30" width="50" height="40" fill="#07a" filter="url(#f)"/>"###,
+    r###"<defs><filter id="f" color-interpolation-filters="sRGB"><feColorMatrix type="hueRotate" values="120"/><feComponentTransfer><feFuncR type="table" tableValues="0 0.2 1"/><feFuncG type="discrete" tableValues="0 1"/><feFuncB type="gamma" amplitude="0.9" exponent="2" offset="0.1"/><feFuncA type="linear" slope="0.8"/></feComponentTransfer></filter></defs><rect x="20" y="20" width="80" height="60" fill="url(#lg)" filter="url(#f)"/>"###,
+    r###"<defs><filter id="f"><feComposite in="SourceGraphic" in2="SourceAlpha" operator="arithmetic" k1="0.2" k2="0.7" k3="-0.3" k4="0.1"/></filter></defs><circle cx="60" cy="50" r="35" fill="orange" filter="url(#f)"/>"###,
+    r###"<defs><filter id="f"><feMorphology operator="dilate" radius="3 1"/><feConvolveMatrix order="3" kernelMatrix="0 -1 0 -1 5 -1 0 -1 0" edgeMode="wrap" preserveAlpha="true" targetX="2" bias="0.05"/></filter></defs><path d="M 30 30 h 60 v 40 h -60 z M 45 40 v 20 h 30 v -20 z" fill="navy" fill-rule="evenodd" filter="url(#f)"/>"###,
+    r###"<defs><filter id="f" primitiveUnits="objectBoundingBox"><feDropShadow dx="0.1" dy="0.08" stdDeviation="0.02" flood-color="purple" flood-opacity="0.7"/></filter></defs><rect x="25" y="25" width="60" height="45" fill="white" filter="url(#f)"/>"###,
+    r###"<defs><filter id="f"><feTurbulence type="fractalNoise" baseFrequency="0.04 0.09" numOctaves="2" seed="7" stitchTiles="stitch"/><feDisplacementMap in="SourceGraphic" scale="12" xChannelSelector="G" yChannelSelector="A"/></filter></defs><rect x="25" y="25" width="60" height="45" fill="black" filter="url(#f)"/>"###,
+    r###"<defs><filter id="f"><feDiffuseLighting in="SourceAlpha" surfaceScale="3" diffuseConstant="1.2" lighting-color="#fc8"><feSpotLight x="30" y="20" z="40" pointsAtX="70" pointsAtY="60" pointsAtZ="0" specularExponent="4" limitingConeAngle="35"/></feDiffuseLighting><feSpecularLighting in="SourceAlpha" specularExponent="8" specularConstant="1.5" lighting-color="white" result="s"><feDistantLight azimuth="45" elevation="50"/></feSpecularLighting><feMerge><feMergeNode in="s"/><feMergeNode in="SourceGraphic"/></feMerge></filter></defs><circle cx="60" cy="50" r="30" fill="gray" filter="url(#f)"/>"###,
+    r###"<defs><filter id="f" x="0" y="0" width="1" height="1"><feImage xlink:href="#stamp" result="im"/><feTile in="im"/></filter></defs><rect x="20" y="20" width="80" height="60" fill="white" filter="url(#f)"/>"###,
+    r###"<defs><filter id="f" x="0" y="0" width="1" height="1"><feImage xlink:href="#stamp" x="30" y="30" width="40" height="30"/></filter><filter id="g"><feOffset dx="3"/></filter></defs><rect x="20" y="20" width="80" height="60" fill="white" filter="url(#g) url(#f)"/>"###,
+    r###"<g filter="blur(2) drop-shadow(4 4 1 red) hue-rotate(40deg) opacity(70%)"><rect x="30" y="30" width="50" height="35" fill="#2a2"/></g>"###,
+    r###"<use xlink:href="#stamp" x="30" y="40" transform="rotate(20 60 50)"/><use xlink:href="#stamp" x="70" y="10" opacity="0.5"/>"###,
+    r###"<defs><symbol id="sy" viewBox="0 0 10 10" preserveAspectRatio="xMinYMax meet"><circle cx="5" cy="5" r="6" fill="maroon"/></symbol></defs><use xlink:href="#sy" x="20" y="20" width="70" height="40"/><svg x="60" y="50" width="40" height="40" viewBox="0 0 4 8" preserveAspectRatio="none"><rect width="4" height="8" fill="#084"/></svg>"###,
+    r###"<defs><marker id="mk" markerWidth="6" markerHeight="6" refX="3" refY="3" orient="auto" markerUnits="strokeWidth"><path d="M 0 0 L 6 3 L 0 6 z" fill="context-stroke"/></marker></defs><path d="M 20 70 L 50 30 L 90 60" fill="none" stroke="url(#lg)" stroke-width="4" marker-start="url(#mk)" marker-mid="url(#mk)" marker-end="url(#mk)"/>"###,
+    r###"<text x="10" y="40" font-size="22" fill="url(#lg)" stroke="black" stroke-width="0.6" text-decoration="underline" letter-spacing="2">Round</text><text x="10" y="80" font-size="18" font-weight="bold" font-style="italic" text-anchor="middle" dx="40" rotate="10 -10">trip</text>"###,
+    r###"<text font-size="14" fill="navy"><textPath xlink:href="#tp" startOffset="20">along a path</textPath></text>"###,
+    r###"<text x="60" y="50" font-size="16" writing-mode="tb" fill="black">TB</text><text x="10" y="30" font-size="16" xml:space="preserve">  a  b<tspan dy="12" fill="red" font-size="24" baseline-shift="super">c</tspan></text>"###,
+    r###"<image x="20" y="20" width="70" height="50" preserveAspectRatio="xMaxYMin slice" image-rendering="pixelated" xlink:href="data:image/png;base64,iVBORw0KGgoAAAANSUhEUgAAAAIAAAACCAYAAABytg0kAAAAFElEQVR42mP8z8DwnwEIGBmgAAAbBAIA3K0LwQAAAABJRU5ErkJggg=="/>"###,
+    r###"<g transform="skewX(20) translate(10 5) scale(0.8 1.1)"><rect x="20" y="20" width="60" height="40" fill="#a0a" stroke="black" stroke-width="3"/></g>"###,
+    r###"<svg x="10" y="10" width="60" height="50" viewBox="0 0 30 30" preserveAspectRatio="xMidYMid slice"><circle cx="15" cy="15" r="18" fill="#36c"/></svg>"###,
+    r###"<g clip-path="url(#nope)" mask="url(#nope2)"><rect x="20" y="20" width="50" height="40" fill="brown"/></g><rect x="60" y="50" width="40" height="30" fill="url(#missing) green"/>"###,
+    r###"<a xlink:href="http://example.org"><rect x="20" y="20" width="50" height="40" fill="black"/></a><switch><rect requiredFeatures="http://www.w3.org/TR/SVG11/feature#Bogus" width="100" height="90" fill="red"/><circle cx="80" cy="60" r="15" fill="blue"/></switch>"###,
+];
+
 fn render_at(t: &usvg::Tree, scale: f32) -> Option<tiny_skia::Pixmap> {
     let size = t.size();
     let (w, h) = ((size.width() * scale).ceil().min(400.0).max(1.0) as u32, (size.height() * scale).ceil().min(400.0).max(1.0) as u32);
@@ -89,10 +137,10 @@ fn render_at(t: &usvg::Tree, scale: f32) -> Option<tiny_skia::Pixmap> {
 pub fn search(tier: &str, seed: u64, s: &mut Search) {
     let mut rng = Rng::new(seed ^ 0x5EA7C08);
     let mult = budget_mult() as usize;
-    let mut one = |s: &mut Search, class: &str, key: &str, data: &[u8], o: &usvg::Options, rng: &mut Rng| {
+    let mut one_v = |s: &mut Search, class: &str, key: &str, data: &[u8], o: &usvg::Options, rng: &mut Rng, forced: Option<u64>| {
         let Ok(Ok(t)) = pan::catch(|| usvg::Tree::from_data(data, o)) else { return };
         let mut w = usvg::WriteOptions::default();
-        let variant = rng.below(4);
+        let variant = forced.unwrap_or_else(|| rng.below(4));
         match variant {
             1 => w.id_prefix = Some("rt_".into()),
             2 => w.preserve_text = true,
@@ -171,6 +219,15 @@ pub fn search(tier: &str, seed: u64, s: &mut Search) {
             }
         }
     };
+    // ---- feature probes: one small document per thing the writer must serialise, made so that the feature
+    // decides the picture; every probe under all four write variants
+    for (k, probe) in PROBES.iter().enumerate() {
+        let svg = format!(r##"<svg xmlns="http://www.w3.org/2000/svg" xmlns:xlink="http://www.w3.org/1999/xlink" width="120" height="100"><defs><linearGradient id="lg" x2="0.6" spreadMethod="reflect" gradientTransform="rotate(20)"><stop offset="0" stop-color="red"/><stop offset="1" stop-color="blue" stop-opacity="0.4"/></linearGradient><rect id="stamp" x="2" y="2" width="16" height="12" fill="teal"/><path id="tp" d="M 10 60 Q 60 20 110 60"/></defs><rect width="120" height="100" fill="#ddb"/>{}</svg>"##, probe);
+        for v in 0..4u64 {
+            one_v(s, "probe", &format!("probe#{} variant#{}: {}", k, v, svg), svg.as_bytes(), &crate::corpus::opts_for(None), &mut rng, Some(v));
+        }
+    }
+    let mut one = |s: &mut Search, class: &str, key: &str, data: &[u8], o: &usvg::Options, rng: &mut Rng| one_v(s, class, key, data, o, rng, None);
     let nc = if tier == "thorough" { 0 } else { 120 * mult.min(4) };
     for p in crate::corpus::sample(nc, seed) {
         let Ok(data) = std::fs::read(&p) else { continue };
